@@ -231,7 +231,7 @@ func vGenHistory(t *testing.T, ctx context.Context, w *vWorld, id int) *vHistory
 			bag = append(bag, ev{kind: "junk", mi: mi, arg: r.below(9)})
 		}
 		if r.chance(1, 3) {
-			bag = append(bag, ev{kind: "inbound", mi: mi, arg: r.below(8)})
+			bag = append(bag, ev{kind: "inbound", mi: mi, arg: r.below(12)})
 		}
 		bag = append(bag, ev{kind: "loop"})
 	}
@@ -364,8 +364,10 @@ func vGenHistory(t *testing.T, ctx context.Context, w *vWorld, id int) *vHistory
 				ok = dr.opInbound(r.bytes(r.below(200)), "garbage")
 			case 5: // valid VAA with one corrupted signature
 				b := w.signedVAA(k, curSet, curMembers, all)
-				b[6+1+r.below(64)] ^= 1
-				ok = dr.opInbound(b, "bad-signature")
+				if len(b) > 72 { // (an encoder that refuses the VAA returns nothing: nothing to corrupt)
+					b[6+1+r.below(64)] ^= 1
+					ok = dr.opInbound(b, "bad-signature")
+				}
 			case 7: // a single valid signature of a current member, wrapped into a VAA that names another set index: far below quorum
 				v := dr.vaaOfMsg(k, curSet.Index+1+uint32(r.below(2)))
 				pos := r.below(len(curSet.Keys))
@@ -373,6 +375,55 @@ func vGenHistory(t *testing.T, ctx context.Context, w *vWorld, id int) *vHistory
 				b, _ := v.Marshal()
 				if q >= 2 {
 					ok = dr.opInbound(b, "other-index-under-quorum")
+				}
+			case 8: // a valid quorum VAA cut short: anywhere from inside the header to one byte before the end (most cuts fall inside the signature block)
+				b := w.signedVAA(k, curSet, curMembers, all)
+				if len(b) > 2 {
+					cut := 1 + r.below(len(b)-1)
+					if r.below(2) == 0 && len(b) > 60 {
+						cut = 57 + r.below(len(b)-57) // long enough to pass the length floor
+					}
+					ok = dr.opInbound(b[:cut], "truncated")
+				}
+			case 9: // the signature count byte announces more signatures than the bytes hold
+				b := w.signedVAA(k, curSet, curMembers, all[:q])
+				if len(b) >= 57 {
+					switch r.below(3) {
+					case 0:
+						b[5] = 255
+					case 1:
+						b[5] = byte(q + 1 + r.below(8))
+					default:
+						b = b[:57]
+						b[5] = 255
+					}
+					ok = dr.opInbound(b, "count-inflated")
+				}
+			case 10, 11: // MORE than quorum signatures: a fully valid first quorum, then a bad tail (outsider at a member's index, a signature over another digest, or an all-zero signature)
+				if len(all) > q {
+					v := &vaa.VAA{Version: vaa.SupportedVAAVersion, GuardianSetIndex: curSet.Index, Timestamp: k.Timestamp, Nonce: k.Nonce, EmitterChain: k.EmitterChain,
+						TargetChain: k.TargetChain, EmitterAddress: k.EmitterAddress, Payload: k.Payload, Sequence: k.Sequence, ConsistencyLevel: k.ConsistencyLevel}
+					for _, p := range all[:q] {
+						v.AddSignature(w.key(curMembers[p]), uint8(p))
+					}
+					switch r.below(3) {
+					case 0:
+						out := len(w.keys) - 1
+						for vContains(curMembers, out) {
+							out--
+						}
+						v.AddSignature(w.key(out), uint8(q)) // an outsider signs at a member's position
+					case 1:
+						v2 := *v
+						v2.Nonce++
+						v2.Signatures = nil
+						v2.AddSignature(w.key(curMembers[q]), uint8(q)) // the member's signature, but over another body
+						v.Signatures = append(v.Signatures, v2.Signatures[0])
+					default:
+						v.Signatures = append(v.Signatures, &vaa.Signature{Index: uint8(q)})
+					}
+					b, _ := v.Marshal()
+					ok = dr.opInbound(b, "valid-quorum-prefix-bad-tail")
 				}
 			case 6: // different body for an id that may already be stored
 				k2 := *k
